@@ -151,6 +151,57 @@ def cmp_specs():
     return [lt, gt, ne, eq, le, ge]
 
 
+RENDERED = z3.Function('ms_utc_rendering', z3.RealSort(), IntSeq)         # render(ms=True) of a value, as an uninterpreted function of the value
+
+
+def render_callee(eng, recv, args, kw, st, n):
+    """ASSUMED model of self.render(ms=True) inside __str__: a function of the current value only (its frame is the render_frame obligation)"""
+    from pyvc.vals import RefV
+    val = st.heap[(recv.id, 'value')]
+    val = val[1] if isinstance(val, tuple) else val
+    yield st, SeqV(RENDERED(val.t), 'str')
+
+
+def replay_cache(model, obligation):
+    from cpppo.history import times
+    for v0 in (1000.0004, 1399326141.9994, 1414915323.1225, -5.5):
+        for step in (0.0004, -0.0003, 0.002, 1, -1.5, 1e-4):
+            ts = times.timestamp(v0)
+            str(ts)
+            ts += step
+            a = (str(ts), str(times.timestamp(ts.value)))
+            ts = times.timestamp(v0)
+            str(ts)
+            ts -= step
+            b = (str(ts), str(times.timestamp(ts.value)))
+            for got, fresh in (a, b):
+                if got != fresh:
+                    return dict(confirmed=True, function='cpppo.history.times.timestamp.__iadd__/__isub__/__str__', input='timestamp(%r); str(); adjust by %r; str()' % (v0, step),
+                                observed=got, required='%s (the rendering of the adjusted value)' % fresh)
+    return dict(confirmed=False)
+
+
+def cache_specs():
+    """the lazily cached millisecond UTC rendering stays coherent with the value: INV := _str is None or _str == rendering(value)"""
+    fields = {'value': 'Real', '_str': ('Union', ['None', 'Str'])}
+    funcs = dict(rendering=lambda pe, v: SeqV(RENDERED(v.t), 'str'))
+    INV = '(self._str is None or self._str == rendering(self.value))'
+    out = []
+    for name, sign in (('__iadd__', '+'), ('__isub__', '-')):
+        out.append(Spec('timestamp.%s' % name, (T, 'timestamp.%s' % name), params={'rhs': 'Real'}, fields=fields, requires=INV,
+                        ensures=[('the value is adjusted by the amount given', 'self.value == old(self.value) %s rhs' % sign),
+                                 ('the cached rendering is dropped whenever the value changes', 'implies(self.value != old(self.value), self._str is None)'),
+                                 ('the cache stays coherent with the value', INV)],
+                        raises={}, modifies=['self.value', 'self._str'], hints=dict(funcs=funcs), replay=replay_cache,
+                        note='T8: float arithmetic as exact reals; the rendering is an uninterpreted function of the value'))
+    out.append(Spec('timestamp.__str__', (T, 'timestamp.__str__'), params={}, fields=fields, requires=INV,
+                    ensures=[('str() is the millisecond UTC rendering of the current value', 'result == rendering(self.value)'),
+                             ('the cache stays coherent with the value', INV), ('the value is untouched', 'self.value == old(self.value)')],
+                    raises={}, modifies=['self._str'], callees={'render': render_callee, 'timestamp.render': render_callee}, hints=dict(funcs=funcs), replay=replay_cache,
+                    note='render(ms=True) by its assumed model (a function of the value; frame: render_frame)'))
+    return out
+
+
 def order_lemmas(repo):
     a, b, ra, rb = z3.Reals('a b ra rb')
     eps = z3.RealVal('1/1000')
@@ -229,7 +280,7 @@ def replay_render_frame(model, obligation):
 
 
 def contracts(repo):
-    return [format_spec()] + cmp_specs() + [Custom('render_frame', render_frame, replay=replay_render_frame,
+    return [format_spec()] + cmp_specs() + cache_specs() + [Custom('render_frame', render_frame, replay=replay_render_frame,
                                                    note='frame condition decided on the AST of the real timestamp.render / datetime_from_number: no store to self / cls')] + [Custom('order', order_lemmas, note='over the contracts of __lt__/__gt__: lt := a + eps < b, gt := a - eps > b, eq := neither')]
 
 
